@@ -315,6 +315,22 @@ func c03PipeStage(tok string, nw int, it obiiter.IBioSequence, flat []int) (obii
 		return it.FilterEmpty(), flat, true
 	case p[0] == "limitmem" && len(p) == 1:
 		return it.LimitMemory(1.0), flat, true
+	case p[0] == "tee" && len(p) == 1:
+		a, b := it.CopyTee()
+		go c03ConsumeBursty(b)
+		return a, flat, true
+	case p[0] == "complete" && len(p) == 1:
+		return it.SortBatches().CompleteFileIterator(), flat, true
+	case p[0] == "divt" && len(p) == 2 && num(1) > 0:
+		var want []int
+		for _, id := range flat {
+			if id%3 == 0 {
+				want = append(want, id)
+			}
+		}
+		t, f := it.DivideOn(c03Pred, num(1))
+		go c03ConsumeBursty(f)
+		return t, want, true
 	case p[0] == "worker" && len(p) == 1:
 		var want []int
 		for _, id := range flat {
@@ -706,6 +722,7 @@ func (c03) Gen(rng *rand.Rand, tier string, emit func(string)) {
 			emit(fmt.Sprintf("rebatch %d | %s", size, c03Show(st)))
 		}
 	}
+	c03GenMore(rng, tier, emit)
 }
 
 func c03Contract(bs []c03Batch) bool {
@@ -840,8 +857,198 @@ func (c03) Exec(c string) (string, []Fail) {
 		}
 	}
 	var expectFatal, notExecuted atomic.Bool
-	res := guardT(5*time.Second, func() string {
+	wd := 5 * time.Second
+	switch op {
+	case "divideabs":
+		wd = 1200 * time.Millisecond
+	case "big":
+		wd = 120 * time.Second
+	}
+	res := guardT(wd, func() string {
 		switch {
+		case (op == "divideabs" || op == "divideslow") && len(streams) == 1 && len(head) == 2 && intArg(1) > 0:
+			ti, fi := c03Iter(streams[0]).DivideOn(c03Pred, intArg(1))
+			var wt, wf []int
+			for _, id := range c03Flat(streams[0]) {
+				if id%3 == 0 {
+					wt = append(wt, id)
+				} else {
+					wf = append(wf, id)
+				}
+			}
+			if op == "divideabs" {
+				// the second output is never consumed: the first one must still be served when the second
+				// carries nothing; when it carries a batch the loop blocks (explicit outcome "hang")
+				t := c03Drain(ti)
+				checkOut(t, wt, true)
+				return "T " + c03Show(t)
+			}
+			var t, f []c03Batch
+			var wg sync.WaitGroup
+			wg.Add(2)
+			go func() { t = c03DrainMode(ti, "burst"); wg.Done() }()
+			go func() { time.Sleep(20 * time.Millisecond); f = c03DrainMode(fi, "slow"); wg.Done() }()
+			wg.Wait()
+			checkOut(t, wt, true)
+			checkOut(f, wf, true)
+			return "T " + c03Show(t) + " F " + c03Show(f)
+		case op == "adaptnil" && len(streams) == 1 && len(streams[0]) == 1 && len(head) == 4:
+			boe := c03FlagArg("boe=", head[2])
+			sp, ok := c03ParseWSpec(head[3])
+			if boe < 0 || boe > 1 || !ok {
+				return "bad-op"
+			}
+			variant := head[1]
+			stat("adaptnil:" + variant)
+			ids := streams[0][0].ids
+			in := obiseq.MakeBioSequenceSlice()
+			for _, id := range ids {
+				in = append(in, c03Seq(id))
+			}
+			w := sp.worker()
+			var nilw obiseq.SeqWorker
+			var sw obiseq.SeqSliceWorker
+			var want []int
+			failed := false
+			switch variant {
+			case "w":
+				sw, want = obiseq.SeqToSliceWorker(nil, boe == 1), ids
+			case "c":
+				sw = obiseq.SeqToSliceConditionalWorker(nil, w, boe == 1)
+				want, failed = c03RefWorkers([]c03WSpec{sp}, ids)
+			case "cw":
+				sw = obiseq.SeqToSliceConditionalWorker(c03Pred, nil, boe == 1)
+				for _, id := range ids {
+					if id%3 == 0 {
+						want = append(want, id)
+					}
+				}
+			case "cwn":
+				sw, want = obiseq.SeqToSliceConditionalWorker(nil, nil, boe == 1), ids
+			case "chainl":
+				sw = obiseq.SeqToSliceWorker(nilw.ChainWorkers(w), boe == 1)
+				want, failed = c03RefWorkers([]c03WSpec{sp}, ids)
+			case "chainr":
+				sw = obiseq.SeqToSliceWorker(w.ChainWorkers(nil), boe == 1)
+				want, failed = c03RefWorkers([]c03WSpec{sp}, ids)
+			case "chainnn":
+				// a chained worker applied to a nil record yields nothing and does not panic
+				r, err := w.ChainWorkers(w)(nil)
+				if err != nil || len(r) != 0 {
+					fail("nil-record", "a chained worker applied to nil returned %d records, err=%v", len(r), err)
+				}
+				if nilw.ChainWorkers(nil) == nil {
+					return "nil"
+				}
+				return "worker"
+			default:
+				return "bad-op"
+			}
+			res, err := sw(in)
+			if err != nil {
+				if !(failed && boe == 1) {
+					fail("error", "the adapter returned an error although no record had to stop the batch: %v", err)
+				}
+				return "err"
+			}
+			if failed && boe == 1 {
+				fail("error", "a record failed under breakOnError but the adapter returned no error")
+			}
+			var got []int
+			for _, r := range res {
+				if r == nil {
+					fail("nil-record", "a nil record was returned")
+					return "panic"
+				}
+				got = append(got, c03Id(r))
+			}
+			if !eqInts(got, want) {
+				fail("records", "%d records returned, %d expected: got %v, expected %v", len(got), len(want), c03Head(got), c03Head(want))
+			}
+			return "ok " + c03ShowIds(got)
+		case op == "pipec" && len(streams) == 1 && len(head) == 4:
+			nw := c03FlagArg("w=", head[1])
+			mode := strings.TrimPrefix(head[2], "c=")
+			if nw <= 0 || (mode != "fast" && mode != "slow" && mode != "burst") {
+				return "bad-op"
+			}
+			stages := strings.Split(head[3], ",")
+			stat(fmt.Sprintf("pipec.stages:%d", len(stages)))
+			stat("pipec.consumer:" + mode)
+			stat(fmt.Sprintf("pipec.workers:%d", nw))
+			it := c03Iter(streams[0])
+			flat := c03Flat(streams[0])
+			for _, tok := range stages {
+				var ok bool
+				it, flat, ok = c03PipeStage(tok, nw, it, flat)
+				if !ok {
+					go it.Consume()
+					return "bad-op"
+				}
+				stat("pipec.stage:" + strings.Split(tok, ":")[0])
+			}
+			out := c03DrainMode(it, mode)
+			c03SortByOrder(out)
+			checkOut(out, flat, false)
+			return c03Show(out)
+		case op == "big" && len(streams) == 1 && len(streams[0]) == 0 && len(head) == 6:
+			nw, nrec, bsz := c03FlagArg("w=", head[1]), c03FlagArg("n=", head[3]), c03FlagArg("bs=", head[4])
+			mode := strings.TrimPrefix(head[2], "c=")
+			stages := strings.Split(head[5], ",")
+			last := strings.Split(stages[len(stages)-1], ":")
+			if nw <= 0 || nrec < 0 || bsz <= 0 || last[0] != "rebatch" || (mode != "fast" && mode != "slow" && mode != "burst") {
+				return "bad-op"
+			}
+			stat(fmt.Sprintf("big.records:%d", nrec))
+			it := c03BigStream(nrec, bsz)
+			flat := make([]int, nrec)
+			for i := range flat {
+				flat[i] = i + 1
+			}
+			for _, tok := range stages {
+				var ok bool
+				it, flat, ok = c03PipeStage(tok, nw, it, flat)
+				if !ok {
+					go it.Consume()
+					return "bad-op"
+				}
+			}
+			n, nb, lastLen, h, bad := 0, 0, 0, 7, 0
+			for it.Next() {
+				b := it.Get()
+				if b.Order() != nb {
+					bad++
+				}
+				for _, sq := range b.Slice() {
+					id := c03Id(sq)
+					if n >= len(flat) || flat[n] != id {
+						bad++
+					}
+					h = (h*31 + id) % 1000000007
+					n++
+				}
+				lastLen = b.Len()
+				c03Pace(mode, nb)
+				nb++
+			}
+			if bad > 0 || n != len(flat) {
+				fail("records", "%d records delivered for %d expected, %d out of place or misnumbered batches", n, len(flat), bad)
+			}
+			return fmt.Sprintf("n=%d nb=%d last=%d h=%d", n, nb, lastLen, h)
+		case op == "uniq" && len(streams) == 1 && len(head) == 1:
+			return c03Uniq(streams[0], fail)
+		case op == "trace" && len(streams) == 1 && (len(head) == 3 || len(head) == 4):
+			nw := c03FlagArg("w=", head[1])
+			mode := strings.TrimPrefix(head[2], "c=")
+			if nw <= 0 || !inContract || (mode != "fast" && mode != "slow" && mode != "burst") {
+				return "bad-op"
+			}
+			events, out := c03Trace(streams[0], nw, mode)
+			caseOverride = strings.Join(head[:3], " ") + " ev=" + strings.Join(events, ",") + " | " + parts[1]
+			checkOut(out, c03Flat(streams[0]), true)
+			stat(fmt.Sprintf("trace.events:%d+", len(events)/10*10))
+			return "valid " + c03Show(out)
+
 		case op == "sort" && len(streams) == 1:
 			out := c03Drain(c03Iter(streams[0]).SortBatches())
 			checkOut(out, c03Flat(streams[0]), true)
@@ -1422,6 +1629,12 @@ func (c03) Exec(c string) (string, []Fail) {
 		}
 	}
 	if notExecuted.Load() {
+		return res, nil
+	}
+	if op == "divideabs" && res == "hang" {
+		// the loop is blocked on the output nobody consumes (divide_absent_consumer_blocks): whether this is the
+		// case for this input is decided by the model (second stream non empty)
+		stat("divideabs:hang(second output not consumed)")
 		return res, nil
 	}
 	if expectFatal.Load() {
